@@ -3,7 +3,7 @@
 use crate::run::{CaseResult, Ctx, Gen, Obs};
 use crate::util::Src;
 
-pub const RULE: &str = "Configurations `arbitrary` and all-features+`arbitrary`. Inputs of length 0..=4096: all-zero, all-0xFF and every single-byte-repeated pattern (256 patterns x a ladder of lengths; thorough: every length), and proptest byte strings assembled from a weighted mix of uniform bytes, ASCII, well-formed 2/3/4-byte UTF-8 sequences and ill-formed pieces (lone continuation bytes, truncated leads, overlongs, surrogates, 0xF8..0xFF), with length-prefix-like words biased towards capacities. plus layout-aware inputs that follow the order in which the hand-written Arbitrary impls consume data (variant selector, 8-byte little-endian length, text window, lengths of borrowed strings at the end of the input) with the declared length at capacity-3..capacity+7 and the window end before, inside or after a multi-byte character whose remaining bytes follow. Each input is fed to <ctap1::Request>, <ctap2::Request> and <authenticator::Request as Arbitrary>::arbitrary. Oracle: no panic/abort; Err is NotEnoughData; Ok(req): a harness-side walker visits every public field - every String<N> and &str passes core::str::from_utf8 on its raw bytes, every String/Bytes/Vec is within its capacity, every borrowed member (&[u8], &str, &[u8; N], &ByteArray<N>) points into the input buffer it borrows from, known formats <= 2, filtered parameters <= 2 with alg in {-7,-8}; Debug-formatting, clone and == clone complete and agree; dispatching through the C10 recording mock returns. Non-trivial: an Ok result whose input contained a non-ASCII byte (the unchecked UTF-8 path may have been taken) or which holds a bounded field at capacity; distinct by (entry point, input).";
+pub const RULE: &str = "Configurations `arbitrary` and all-features+`arbitrary`. Inputs of length 0..=4096 (layout-aware ones up to about 7.4 kB): all-zero, all-0xFF and every single-byte-repeated pattern (256 patterns x a ladder of lengths; thorough: every length), and proptest byte strings assembled from a weighted mix of uniform bytes, ASCII, well-formed 2/3/4-byte UTF-8 sequences and ill-formed pieces (lone continuation bytes, truncated leads, overlongs, surrogates, 0xF8..0xFF), with length-prefix-like words biased towards capacities. plus layout-aware inputs that follow the order in which the hand-written Arbitrary impls consume data (variant selector, 8-byte little-endian length, text window, lengths of borrowed strings at the end of the input) with the declared length at capacity-3..capacity+7 and the window end before, inside or after a multi-byte character whose remaining bytes follow. Each input is fed to <ctap1::Request>, <ctap2::Request> and <authenticator::Request as Arbitrary>::arbitrary and, separately, ::arbitrary_take_rest. Oracle: no panic/abort; Err is NotEnoughData; Ok(req): a harness-side walker visits every public field - every String<N> and &str passes core::str::from_utf8 on its raw bytes, every String/Bytes/Vec is within its capacity, every borrowed member (&[u8], &str, &[u8; N], &ByteArray<N>) points into the input buffer it borrows from, known formats <= 2, filtered parameters <= 2 with alg in {-7,-8}; Debug-formatting, clone and == clone complete and agree; dispatching through the C10 recording mock returns. Non-trivial: an Ok result whose input contained a non-ASCII byte (the unchecked UTF-8 path may have been taken) or which holds a bounded field at capacity; distinct by (entry point, input).";
 pub const ASSUMPTIONS: &[&str] = &[
     "VendorOperation's derived Arbitrary can yield codes outside 0x40..0x7F; the statement's validity list does not include the vendor range, so it is recorded, not asserted",
     "an invalid str that happens not to crash is only visible to from_utf8 on the raw bytes (and to Miri in the thorough tier)",
@@ -337,8 +337,40 @@ mod with_arb {
             Fail::new(format!("C19:{}:{}", ename, what), m, json!({"entry": ename, "input_len": data.len(), "input_hex": hex(&data[..data.len().min(300)])}))
                 .with_concrete("c19_concrete", payload.clone())
         };
-        let mut u = Unstructured::new(data);
         let mut w = Walk { at_capacity: false, vendor_out_of_range: false, input: (data.as_ptr() as usize, data.as_ptr() as usize + data.len()) };
+        // the second entry point of the trait: `arbitrary_take_rest` (what `fuzz_target!(|r: Request|)`
+        // calls); it is judged like the first, and reported under its own name
+        let res_rest: Result<(), (String, String)> = {
+            let u = Unstructured::new(data);
+            match entry {
+                0 => match <ctap1::Request as Arbitrary>::arbitrary_take_rest(u) {
+                    Ok(r) => walk1(&w, &r).and_then(|_| check_value("ctap1::Request", &r)).and_then(|_| dispatch1(&r)).map_err(|m| ("take_rest:invalid-value".to_string(), m)),
+                    Err(arbitrary::Error::NotEnoughData) => Ok(()),
+                    Err(e) => Err(("take_rest:unexpected-error".into(), format!("{:?}", e))),
+                },
+                1 => match <ctap2::Request as Arbitrary>::arbitrary_take_rest(u) {
+                    Ok(r) => walk2(&mut w, &r).and_then(|_| check_value("ctap2::Request", &r)).and_then(|_| dispatch2(&r)).map_err(|m| ("take_rest:invalid-value".to_string(), m)),
+                    Err(arbitrary::Error::NotEnoughData) => Ok(()),
+                    Err(e) => Err(("take_rest:unexpected-error".into(), format!("{:?}", e))),
+                },
+                _ => match <authenticator::Request as Arbitrary>::arbitrary_take_rest(u) {
+                    Ok(r) => {
+                        let inner = match &r {
+                            authenticator::Request::Ctap1(x) => walk1(&w, x).and_then(|_| dispatch1(x)),
+                            authenticator::Request::Ctap2(x) => walk2(&mut w, x).and_then(|_| dispatch2(x)),
+                        };
+                        inner.and_then(|_| check_value("authenticator::Request", &r)).map_err(|m| ("take_rest:invalid-value".to_string(), m))
+                    }
+                    Err(arbitrary::Error::NotEnoughData) => Ok(()),
+                    Err(e) => Err(("take_rest:unexpected-error".into(), format!("{:?}", e))),
+                },
+            }
+        };
+        obs.sub_evals += 1;
+        if let Err((k, m)) = res_rest {
+            return Err(fail(&k, m));
+        }
+        let mut u = Unstructured::new(data);
         let res: Result<(), (String, String)> = match entry {
             0 => match <ctap1::Request as Arbitrary>::arbitrary(&mut u) {
                 Ok(r) => walk1(&w, &r).and_then(|_| check_value("ctap1::Request", &r)).and_then(|_| dispatch1(&r)).map_err(|m| ("invalid-value".to_string(), m)),
@@ -498,7 +530,7 @@ mod with_arb {
     /// words: [entry (1 = ctap2, 2 = combined), request kind, ...]
     fn g_layout(src: &mut Src, obs: &mut Obs) -> CaseResult {
         let entry = 1 + src.below(2);
-        let kind = src.below(4);
+        let kind = src.below(5);
         let mut d: Vec<u8> = vec![];
         if entry == 2 {
             // authenticator::Request: variant 1 of 2 = Ctap2
@@ -538,6 +570,32 @@ mod with_arb {
                 }
                 tail = (cdh as u16).to_be_bytes().to_vec();
                 obs.label("layout:make_credential");
+            }
+            4 => {
+                // LargeBlobs (variant 8): get (Option<u32>), set (Option<&[u8]>, length from the end),
+                // offset (u32), length (Option<u32>), pinUvAuthParam, pinUvAuthProtocol; fragments
+                // around and beyond 4096 bytes with the offset zero or not
+                d.extend_from_slice(&variant(8));
+                let get = src.bool();
+                d.push(get as u8);
+                if get {
+                    d.extend_from_slice(&(src.word()).to_le_bytes());
+                }
+                d.push(1); // set = Some
+                let l = *src.pick(&[0usize, 1, 16, 17, 3008, 4095, 4096, 4097, 5000, 7000]);
+                d.extend((0..l).map(|i| (i as u8) | 0x80));
+                let off: u32 = if src.bool() { 0 } else { src.word() };
+                d.extend_from_slice(&off.to_le_bytes());
+                let lenp = src.bool();
+                d.push(lenp as u8);
+                if lenp {
+                    d.extend_from_slice(&(src.word()).to_le_bytes());
+                }
+                tail = (l as u16).to_be_bytes().to_vec();
+                obs.label("layout:large_blobs");
+                if l > 4096 {
+                    obs.label("layout:large_blobs:fragment>4096");
+                }
             }
             2 => {
                 // GetAssertion (variant 1): rp_id (&str, length from the end), clientDataHash (&[u8])
@@ -643,13 +701,13 @@ mod with_arb {
         for entry in 0..3usize {
             ctx.random(&G_MIX, &[idx(entry, 3)], ctx.t(20_000, 1_000_000), 900);
         }
-        for kind in 0..4usize {
+        for kind in 0..5usize {
             for entry in 0..2usize {
-                ctx.random(&G_LAYOUT, &[idx(entry, 2), idx(kind, 4)], ctx.t(6_000, 300_000), 200);
+                ctx.random(&G_LAYOUT, &[idx(entry, 2), idx(kind, 5)], ctx.t(6_000, 300_000), 200);
             }
         }
         ctx.require(&["layout:make_credential", "layout:get_assertion", "layout:credential_management", "window:cuts-a-character",
-            "window:on-a-boundary", "window:ill-formed-byte", "window:char-never-completed", "window:borrowed-rp-id", "window:short-rp-id-hash"]);
+            "window:on-a-boundary", "window:ill-formed-byte", "window:char-never-completed", "window:borrowed-rp-id", "window:short-rp-id-hash", "layout:large_blobs", "layout:large_blobs:fragment>4096"]);
         ctx.require(&["entry:ctap1::Request", "entry:ctap2::Request", "entry:authenticator::Request", "result:ok", "result:not-enough-data", "pattern:repeat", "pattern:mix", "field-at-capacity"]);
     }
 }
